@@ -26,9 +26,9 @@ func msgOf(n int) []byte {
 
 func gen(tier string, seed int64) []hx.Scenario {
 	var out []hx.Scenario
-	lens := []int{0, 1, 15, 16, 31, 32, 33, 64}
+	lens := []int{0, 1, 15, 16, 31, 32, 33, 64, 2031, 2032, 4096}
 	if tier == "thorough" {
-		lens = append(lens, 2, 17, 48, 100, 255, 1000)
+		lens = append(lens, 2, 17, 48, 100, 255, 1000, 2047, 2048, 65536)
 	}
 	for _, l := range lens {
 		out = append(out, hx.Scenario{Name: "ecies", Cfg: fmt.Sprintf("len=%d", l), Run: func(x *hx.Ctx) { eciesCase(x, l) }})
